@@ -243,10 +243,10 @@ def run_shard(ctx):
             return
     # SCALE: a "fat ladder" - 70 nested levels with all 16 children in use at each (about 1100
     # keys of up to 36 bytes): more than a thousand prefixes are pending at once during a walk
-    top = bytes(rnd.randrange(256) for _ in range(36))
+    top = bytes(36) if ctx.shard % 8 == 0 else bytes(rnd.choice([0x00, 0x01, 0x10, rnd.randrange(256)]) for _ in range(36))
     nb = [n for b in top for n in (b >> 4, b & 15)]
     hist = []
-    for lvl in range(0, 70):
+    for lvl in range(0, 72):
         for x in range(16):
             if x != nb[lvl]:
                 path = nb[:lvl] + [x] + ([0] if (lvl + 1) % 2 else [])
